@@ -21,8 +21,14 @@ ASSUMPTIONS = ["legal operations = field ranges documented in api.py (addresses 
                "(or a 6-bit shift for *_SCALE registers) in the parameter",
                "elision independence between registers of different groups is not examined (each group is run separately)"]
 OUTSIDE = ["operation lists longer than 2 (covered by the arbitrary-previous-value argument per register, not by unrolling)",
-           "derived SHRAM layout registers (C15) and BLOCKDEP (C04)", "stride registers (derived from layout by get_strides)"]
-BOUNDS = {"groups": "ifm_addr, ofm_addr, weights (2 cores), biases, tiles, zero points, padding, regions, activation clamp (with/without scale), pooling OFM scale, DMA (lengths up to 2^38 on U65)",
+           "derived SHRAM layout registers (C15) and BLOCKDEP (C04)", "scaling registers derived from float scales (C09)",
+           "the kernel and shape groups run with the template's SHRAM layout (get_arch_block_config stubbed to it)"]
+BOUNDS = {"groups": "ifm_addr, ofm_addr, weights/biases (1 or 2 ranges on 2 cores), tiles, zero points, padding, regions, activation clamp (with/without scale), "
+                    "activation kind/LUT index x OFM type, kernel (size <= 16, stride 1..3 symbolic; dilation, traversal enumerated), IFM/OFM precision (types, layouts, "
+                    "rounding, upscaling), shapes (h <= 4096 and w or d <= 4096 symbolic, the other enumerated) with default strides, explicit strides, pooling kind, "
+                    "elementwise kind (10 sub-operations) with explicit rescale, IFM2 address/region/zero point, broadcast x operand order, scalar IFM2, pooling OFM scale, "
+                    "DMA (lengths up to 2^38 on U65), DMA channel/mode",
+          "first_operation": "for enumerated fields the first operation takes a subset of the choices (its role is to leave arbitrary register values), the second all",
           "accelerators": "Ethos_U55_128, Ethos_U65_512"}
 
 
